@@ -47,3 +47,51 @@ harness! { fn offset_history_total_no_panic() {
     if of == 3 && ll == 0 && h0 == 0 { assert!(got == 0); }
     nd_cover!(h0 == 0 && of == 3 && ll == 0, "the #115 case");
 } }
+
+// ------------------------------------------------------------------------------------------------ C05
+use crate::blocks::sequence_section::Sequence;
+use alloc::vec::Vec;
+use crate::decoding::decode_buffer::verif_kani as dbk;
+use crate::decoding::ringbuffer::verif_kani as rbk;
+
+// C05/C03: execute_sequences never makes the output buffer grow by more than one maximum block (128 KiB), whatever
+// the sequences are: it returns an error first.  Counting ring (S11): only lengths are tracked.
+fn exec_bound<const NSEQ: usize>() {
+    nd::stubs(nd::S11_EXEC_SINK);
+    let mut sc = DecoderScratch::new(1024);
+    let before: usize = nd::any();
+    nd::assume(before <= 1 << 32);
+    dbk::set_ring(&mut sc.buffer, rbk::counting_ring(before));
+    let w: usize = nd::any();
+    sc.buffer.window_size = w;
+    let toc: u64 = nd::any();
+    nd::assume(toc <= 1 << 62);
+    dbk::set_total_output_counter(&mut sc.buffer, toc);
+    // literals: after the literals-section guard at most one maximum block, content irrelevant for the bound
+    let nlit: usize = nd::any();
+    nd::assume(nlit <= 128 * 1024);
+    // under S11 literal bytes are never read, only their count matters
+    sc.literals_buffer = Vec::with_capacity(128 * 1024);
+    unsafe { sc.literals_buffer.set_len(nlit); }
+    let h0: u32 = nd::any(); let h1: u32 = nd::any(); let h2: u32 = nd::any();
+    sc.offset_hist = [h0, h1, h2];
+    let mut k = 0;
+    while k < NSEQ {
+        let ll: u32 = nd::any(); let ml: u32 = nd::any(); let of: u32 = nd::any();
+        // what decode_sequences can produce: table maxima of RFC 8878 (literal length <= 131071, match length <= 131074)
+        nd::assume(ll <= 131071 && ml >= 3 && ml <= 131074 && of >= 1);
+        sc.sequences.push(Sequence { ll, ml, of });
+        k += 1;
+    }
+    let r = execute_sequences(&mut sc);
+    let after = sc.buffer.len();
+    assert!(after >= before);
+    assert!(after - before <= 128 * 1024, "one block made the decoder buffer more than 128 KiB");
+    nd_cover!(r.is_ok() && after - before == 128 * 1024, "a block of exactly the maximum size is accepted");
+    nd_cover!(r.is_err(), "an oversized block is refused");
+    match r { Ok(()) => {}, Err(e) => core::mem::forget(e) }
+    core::mem::forget(sc);
+}
+harness! { fn c05_exec_bound_1seq() { exec_bound::<1>(); } }
+harness! { fn c05_exec_bound_2seq() { exec_bound::<2>(); } }
+harness! { fn c05_exec_bound_3seq() { exec_bound::<3>(); } }
